@@ -8,6 +8,7 @@ import FlacModel.Model.StreamReader
 import FlacModel.Spec.Rfc
 import FlacModel.Model.Readers
 import FlacModel.Model.Writers
+import FlacModel.Model.ByteFront
 import FlacModel.Model.Md5
 import FlacModel.Model.Finalize
 import Driver.Gen
@@ -288,13 +289,6 @@ def splitCalls (xs : List α) : List Nat → List (List α)
   | [] => if xs.isEmpty then [] else [xs]
   | c :: cs => xs.take c :: splitCalls (xs.drop c) cs
 
-def bytesToSample (be : Bool) (b : List Nat) : Int :=
-  bitsToInt (bytesToBits (if be then b else b.reverse))
-
-def chunkN (n : Nat) : Nat → List α → List (List α)
-  | 0, _ => []
-  | fuel+1, l => if l.isEmpty || n == 0 then [] else l.take n :: chunkN n fuel (l.drop n)
-
 def opWr (f : Fields) (implHead : String) : String :=
   if implHead != "ok" then "model-skip" else
   let pcm := parseInts (f.get "pcm")
@@ -304,13 +298,14 @@ def opWr (f : Fields) (implHead : String) : String :=
   let chunks := parseNats (f.get "chunks")
   let be := f.get "endian" == "be"
   let n := bytesPerSample bps
+  -- the byte front-end's blocks of raw bytes (`Model/ByteFront.lean`)
+  let rawBlocks : List (List Nat) :=
+    let raw := pcm.flatMap (sampleBytes n be)
+    ((splitCalls raw chunks).foldl (Wr.write (n * ch * bs)) Wr.init).finalize (n * ch)
   -- blocks as interleaved sample lists
   let blocks : List (List Int) :=
     match f.get "fe" with
-    | "byte" =>
-      let raw := pcm.flatMap (sampleBytes n be)
-      let w := (splitCalls raw chunks).foldl (Wr.write (n * ch * bs)) Wr.init
-      (w.finalize (n * ch)).map fun blk => (chunkN n blk.length blk).map (bytesToSample be)
+    | "byte" => rawBlocks.map (byteFrontSamples n be)
     | "chan" =>
       let frames := chunkN ch pcm.length (pcm.take (pcm.length - pcm.length % ch))
       let w := (splitCalls frames chunks).foldl (Wr.write bs) Wr.init
@@ -319,7 +314,7 @@ def opWr (f : Fields) (implHead : String) : String :=
       let w := (splitCalls pcm chunks).foldl (Wr.write (ch * bs)) Wr.init
       w.finalize ch
   let lens := blocks.map fun b => b.length / ch
-  let md5 := Md5.md5 (blocks.flatten.flatMap (sampleBytes n false))
+  let md5 := Md5.md5 (if f.get "fe" == "byte" then rawBlocks.flatMap (byteFrontMd5Input n be) else blocks.flatten.flatMap (sampleBytes n false))
   s!"ok lens={if lens.isEmpty then "-" else ",".intercalate (lens.map toString)} total={lens.sum} md5={bytesToHex md5}"
 
 def seekPtStr : SeekPt → String
